@@ -152,3 +152,137 @@ def fsm_distinct_events(c):
 
 def flag(view, fsm, which):
     return view.f('Event.flag', view.f('FSM.wait_on_' + which, fsm))
+
+# ---------------------------------------------------------------------------- shelve comms.Worker (database lock)
+import dawgie.db.shelve.enums
+MUTEX = W.enum(dawgie.db.shelve.enums.Mutex)
+DBW = Ref('DbWorker')
+LOOPCALL = Ref('LoopingCall')
+W.declare_fields('DbWorker', _Worker__has_lock=BOOL, _Worker__looping_call_stopped=BOOL, _Worker__connection_lost=BOOL,
+                 _Worker__looping_call=LOOPCALL, _Worker__id_name=ATOM,
+                 ghost_told=Opt(MUTEX), ghost_nsent=INT, ghost_answer=Opt(BOOL))
+W.declare_fields('LoopingCall', running=BOOL)
+W.class_path['DbWorker'] = 'dawgie.db.shelve.comms.Worker'
+W.declare_global('dawgie.context.db_lock', BOOL)
+
+
+def _dbw_send(ex, recv, args, kwargs, line):
+    """assumed: _send pickles and writes one framed response; ghost: what this client was last told"""
+    v = args[0]
+    ex.set_field(recv, 'ghost_nsent', ex.binop(ast.Add(), ex.get_field(recv, 'ghost_nsent'), 1, line), line)
+    ty = ex.ty_of(v)
+    if ty == MUTEX:
+        ex.set_field(recv, 'ghost_told', v, line)
+    elif ty == BOOL:
+        ex.set_field(recv, 'ghost_answer', v, line)
+    else:
+        raise Unsupported('_send of %r' % (v,))
+    return None
+
+
+W.methods[('DbWorker', '_send')] = _dbw_send
+W.externs['dawgie.db.shelve.state.DBI'] = Extern(fn=lambda ex, args, kwargs, e: Dotted('DBI'))
+W.externs['DBI.task_engine.add_task'] = Extern(drop=True)
+W.externs['twisted.internet.reactor.callLater'] = Extern(drop=True)
+
+# ---------------------------------------------------------------------------- farm view (DESIGN §3)
+import dawgie.pl.message
+MTYPE = W.enum(dawgie.pl.message.Type)
+MSG = Rec('MSG', {'context': Opt(ATOM), 'factory': Opt(ATOM), 'incarnation': Opt(ATOM), 'jobid': Opt(ATOM), 'ps_hint': Opt(INT),
+                  'revision': Opt(ATOM), 'runid': Opt(INT), 'success': Opt(BOOL), 'target': Opt(ATOM), 'timing': Opt(ATOM),
+                  'type': MTYPE, 'values': Opt(ATOM)})
+W.rec_classes = {'dawgie.pl.message.MSG': MSG}
+HAND = Ref('Hand')
+TRANSPORT = Ref('Transport')
+W.declare_fields('Hand', _abort=MSG, _Hand__proceed=MSG, _Hand__wait=MSG, _Hand__incarnation=Opt(ATOM), _Hand__buf=BYTES, _Hand__len=Opt(INT),
+                 _Hand__blen=INT, transport=TRANSPORT, ghost_sent=SeqOf(MSG))
+W.declare_fields('Transport', closed=BOOL)
+W.class_path['Hand'] = 'dawgie.pl.farm.Hand'
+W.methods[('Transport', 'loseConnection')] = lambda ex, recv, args, kwargs, line: ex.set_field(recv, 'closed', True, line)
+W.declare_global('dawgie.pl.farm._workers', ListSet(HAND))
+W.declare_global('dawgie.pl.farm._cluster', SeqOf(MSG))
+W.declare_global('dawgie.pl.farm._busy', SeqOf(ATOM))
+W.declare_global('dawgie.context.git_rev', Opt(ATOM))
+W.declare_global('dawgie.context.fsm', FSM)
+
+
+def _message_send(ex, args, kwargs, e):
+    """assumed (verified separately under C14: message.send writes one frame): ghost log of what each Hand was sent"""
+    m, s = args[0], args[1]
+    if isinstance(s, V) and isinstance(s.ty, Ref) and s.ty.cls == 'Hand':
+        cur = ex.get_field(s, 'ghost_sent')
+        ex.call_method(cur, 'append', [m], {}, e.lineno)
+        return None
+    raise Unsupported('message.send to %r' % (s,))
+
+
+W.externs['dawgie.pl.message.send'] = Extern(fn=_message_send)
+
+
+def sent(view, h):
+    return view.f('Hand.ghost_sent', h)
+
+
+def closed(view, h):
+    return view.f('Transport.closed', view.f('Hand.transport', h))
+
+
+def workers(view):
+    return view.g('dawgie.pl.farm._workers')
+
+
+def fsm_active(view):
+    s = view.g('dawgie.context.fsm')
+    return And(view.f('FSM.state', s) == FSMSTATE.const('running'), view.f('FSM._FSM__transitioning', s) == STATUS.const('active'))
+
+# ---------------------------------------------------------------------------- framing (C14): struct / pickle as uninterpreted functions
+pack_fn = z3.Function('pack_be32', z3.IntSort(), BYTES.sort())          # struct.pack('>I', n)
+unpack_fn = z3.Function('unpack_be32', BYTES.sort(), z3.IntSort())      # struct.unpack('>I', b)[0]
+loads_fn = z3.Function('pickle_loads', BYTES.sort(), MSG.sort())        # dawgie.pl.message.loads
+frames_fn = z3.Function('frames', BYTES.sort(), SeqOf(MSG).sort())      # messages of the complete frames at the head of a stream
+rest_fn = z3.Function('rest', BYTES.sort(), BYTES.sort())              # what remains after them
+TWO32 = 4294967296
+
+
+def struct_axioms():
+    """assumed contract of struct '>I': a bijection between 0..2^32-1 and the 4-byte strings (instantiated at pack/unpack terms)"""
+    n = z3.Const('sa_n', z3.IntSort())
+    h = z3.Const('sa_h', BYTES.sort())
+    return [QHyp([n], Implies(And(n >= 0, n < TWO32), And(z3.Length(pack_fn(n)) == 4, unpack_fn(pack_fn(n)) == n)), 'struct.pack',
+                 triggers=[(pack_fn, 0)]),
+            QHyp([h], Implies(z3.Length(h) == 4, And(unpack_fn(h) >= 0, unpack_fn(h) < TWO32, pack_fn(unpack_fn(h)) == h)), 'struct.unpack',
+                 triggers=[(unpack_fn, 0)])]
+
+
+def frames_axioms():
+    """definition (unfolding) of the specification functions frames/rest, instantiated at every frames(.)/rest(.) term"""
+    u = z3.Const('fa_u', BYTES.sort())
+    n = unpack_fn(z3.SubSeq(u, 0, 4))
+    L = z3.Length(u)
+    body = If(Or(L < 4, L < 4 + n),
+              And(frames_fn(u) == z3.Empty(SeqOf(MSG).sort()), rest_fn(u) == u),
+              And(frames_fn(u) == z3.Concat(z3.Unit(loads_fn(z3.SubSeq(u, 4, n))), frames_fn(z3.SubSeq(u, 4 + n, L - 4 - n))),
+                  rest_fn(u) == rest_fn(z3.SubSeq(u, 4 + n, L - 4 - n))))
+    return [QHyp([u], body, 'frames.def', triggers=[(frames_fn, 0), (rest_fn, 0)])]
+
+
+def _struct_pack(ex, args, kwargs, e):
+    if args[0] != '>I':
+        raise Unsupported('struct.pack format %r' % (args[0],))
+    n = ex._num(args[1])
+    ex.vc('safe.struct.pack-range@%d' % e.lineno, And(n >= 0, n < TWO32), e.lineno)
+    return V(pack_fn(n), BYTES)
+
+
+def _struct_unpack(ex, args, kwargs, e):
+    if args[0] != '>I':
+        raise Unsupported('struct.unpack format %r' % (args[0],))
+    b = ex.to_z3(args[1], BYTES)
+    ex.vc('safe.struct.unpack-size@%d' % e.lineno, z3.Length(b) == 4, e.lineno)
+    return (V(unpack_fn(b), INT),)
+
+
+W.externs['struct.pack'] = Extern(fn=_struct_pack)
+W.externs['struct.unpack'] = Extern(fn=_struct_unpack)
+W.externs['dawgie.pl.message.loads'] = Extern(fn=lambda ex, args, kwargs, e: V(loads_fn(ex.to_z3(args[0], BYTES)), MSG))
+W.declare_fields('Hand', ghost_delivered=SeqOf(MSG))
